@@ -17,6 +17,8 @@ func Choose(site string, n int) int                     { return -1 }
 func IO(kind, path string, off, n int64)                {}
 func Event(kind string, a, b uint64)                    {}
 func EventKV(kind string, key, val []byte, a, b uint64) {}
-func Fault(site string) error                           { return nil }
-func SkipHeight() (int, bool)                           { return 0, false }
-func Now() (time.Time, bool)                            { return time.Time{}, false }
+func Entry(kind string, key, val []byte, version uint64, meta, userMeta byte, expiresAt uint64) {
+}
+func Fault(site string) error { return nil }
+func SkipHeight() (int, bool) { return 0, false }
+func Now() (time.Time, bool)  { return time.Time{}, false }
